@@ -784,6 +784,7 @@ def part_ops():
             st.tuples(st.just("breakattr"), st.integers(0, 5)).map(list),
             st.tuples(st.just("kwcall"), st.integers(0, 3)).map(list),
             st.tuples(st.just("dictsplat"), st.integers(0, 3)).map(list),
+            st.tuples(st.just("insetlist"), st.integers(0, 3)).map(list),
             st.tuples(st.just("sameline"), st.integers(0, 5)).map(list),
             st.tuples(st.just("nest"), st.integers(0, 5)).map(list),
             st.tuples(st.just("addarg"), st.integers(0, 5), st.sampled_from(["pos", "kw", "star", "comma"])).map(list),
